@@ -171,7 +171,11 @@ func runOneOpt(w *tr.Writer, L *Lang, input []byte, logInput bool, gen tr.E, fol
 						ed["lower"] = true
 					}
 				case (a == '\t' || a == '\n' || a == '\r') && b == ' ':
-					ed["ws2sp"] = true
+					if inVal(i) {
+						ed["ws2sp"] = true
+					} else {
+						ed["other"] = true // white space rewritten outside the attribute value (e.g. around '=')
+					}
 				default:
 					ed["other"] = true
 				}
